@@ -9,6 +9,7 @@ use std::sync::Mutex;
 
 #[derive(Serialize, Deserialize, Clone, Debug)]
 struct P { sub: String,
+    #[serde(default, skip_serializing_if = "Option::is_none")] big: Option<u128>,          // a claim beyond 64 bits: `serde_json::Value` cannot hold it
     #[serde(default, skip_serializing_if = "Option::is_none")] exp: Option<Value>,
     #[serde(default, skip_serializing_if = "Option::is_none")] nbf: Option<Value>,
     #[serde(default, skip_serializing_if = "Option::is_none")] iat: Option<Value> }
@@ -33,7 +34,11 @@ pub fn run_case(c: &Value) -> Value {
     *SEEN.lock().unwrap() = None;
     let mut issued = None;
     let auth: Option<String> = if let Some(p) = c.get("issue").filter(|v| !v.is_null()) {
-        let payload: P = serde_json::from_value(p.clone()).expect("harness: issue payload");
+        // (`big` travels as decimal text in the case: the case itself is read through `Value`)
+        let mut pj = p.clone();
+        let big: Option<u128> = pj.as_object_mut().and_then(|o| o.remove("big")).and_then(|b| b.as_str().map(|s| s.parse().expect("harness: big")));
+        let mut payload: P = serde_json::from_value(pj).expect("harness: issue payload");
+        payload.big = big;
         let token: String = fang(alg, secret).issue(payload).into();
         issued = Some(token.clone());
         Some(format!("Bearer {token}"))
@@ -43,11 +48,12 @@ pub fn run_case(c: &Value) -> Value {
         // the same token text, where this configuration looks for it; `decoy`: a token the configuration itself issued, where it does not look
         if let Some(a) = auth { req = req.header("X-Api-Token", a.strip_prefix("Bearer ").expect("harness: getter x needs a Bearer value").to_string()) }
         if c["decoy"].as_bool() == Some(true) {
-            let tok: String = fang(alg, string(unhex(c["secret"].as_str().unwrap()))).issue(P { sub: "decoy".into(), exp: None, nbf: None, iat: None }).into();
+            let tok: String = fang(alg, string(unhex(c["secret"].as_str().unwrap()))).issue(P { sub: "decoy".into(), big: None, exp: None, nbf: None, iat: None }).into();
             req = req.header("Authorization", format!("Bearer {tok}"));
         }
     } else if let Some(a) = auth { req = req.header("Authorization", a) }
     let status = rt().block_on(async { t.oneshot(req).await.status().code() });
     let seen = SEEN.lock().unwrap().take();
-    json!({"ran": seen.is_some(), "status": status, "seen": seen.map(|s| serde_json::from_str::<Value>(&s).unwrap()), "issued": issued.map(|t| hex(t.as_bytes()))})
+    // `seen_text`: the payload the handler saw, as JSON text (a number beyond 64 bits does not survive a `Value`)
+    json!({"ran": seen.is_some(), "status": status, "seen_text": seen, "issued": issued.map(|t| hex(t.as_bytes()))})
 }
